@@ -4,8 +4,18 @@ P("C15",
   title="Pipelines conserve items, respect lanes and never strand an item",
   design_ref="DESIGN.md §3 C15",
   technique="Coq proof (invariants and a one-tick progress lemma over the two-phase Tick, induction over rounds) + exact model/impl correspondence by vm_compute",
-  level_text="see Property.v",
-  level_note="",
+  level_text="Theorems c15_* prove, for every lane width, stage count >= 1, per-item delay, accept pattern (each attempt guarded by "
+             "CanAccept) and sink oracle (one arbitrary boolean per CanPush call), by induction over the rounds of a history: "
+             "no two records share a (stage, lane) in any snapshot (c15_lane_exclusive, via exactness of the occupancy table through "
+             "the passes of advanceItems); accepted = pushed + resident as multisets, hence exactly once for distinct items "
+             "(c15_conservation, c15_exactly_once); with a ready sink one Tick pushes exactly the due records and advances every "
+             "other record by one step (c15_tick_ready_exact), so an item leaves stages+delay ticks after acceptance (c15_latency) "
+             "and from any reachable state every record leaves within (stages-1-stage)+cycles ready ticks (c15_eventually_leaves); "
+             "a one-lane pipeline is FIFO (c15_fifo_width1). c15_single_stage_dwell_old_refuted is the regression lemma for the "
+             "pre-fix code. The model (two-phase Tick with swap removal, occupancy passes) is compared round by round with "
+             "queueing.Pipeline (accept flags, pushes, moved flag, Stages() snapshot).",
+  level_note="Trusted: Coq kernel + vm_compute; the Go harness (scripted sink); the hand-written model of pipeline.go. "
+             "Accept without a free lane is outside the API contract and not modelled; JSON restore of hand-made states is out of scope.",
   quick_shards=8,
   assumptions=["Accept/AcceptWithDelay are called only when CanAccept() is true (every caller in the repository does so)"],
   trusted=["modelled, not verified: queueing/pipeline.go"],
